@@ -45,6 +45,15 @@ WHAT = {
  "C17-r2-mut2": "early return for an ended context between taking the gate and the deferred release", "C17-r2-mut3": "gate also released when the execution's context ends (AfterFunc)",
  "C18-r2-mut1": "message used as format string", "C18-r2-mut2": "one child log.Logger per level, mutex removed (five locks in front of one writer)",
  "C18-r2-mut3": "handler threshold resolved once at construction (LevelVar changed later)",
+ "C03-r3-mut1": "a trigger error other than expiry re-queues the job at now + RetryInterval (invented fire time)", "C03-r3-mut2": "Replace updates the entry in place and forgets the new trigger",
+ "C03-r3-mut3": "jobs validated against the tick's nominal time (a stale timer tick runs a job early)", "C05-r3-mut1": "fast exit at the top of the loop without handing on a consumed interrupt",
+ "C05-r3-mut2": "a job popped before its time is re-timed from now (run-once: silently dropped)", "C05-r3-mut3": "pending interrupt drained before parking on an empty queue",
+ "C10-r3-mut1": "ScheduleJob reads `started` before the queue lock", "C10-r3-mut2": "no Reset() after the loop's own reschedule (restart hand-over lost)",
+ "C10-r3-mut3": "worker-pool wg.Add hoisted above the BlockingExecution guard (Wait never returns)", "C13-r3-mut1": "errors that wrap a context error are never retried",
+ "C13-r3-mut2": "PauseJob stores a copy of the job whose options lose RetryInterval", "C13-r3-mut3": "deferred handler returns before recover() when the context has ended",
+ "C14-r3-mut1": "after-prev check against the search cursor instead of prev", "C14-r3-mut2": "second pass looked up with the offset of 1 January",
+ "C14-r3-mut3": "gap-skipping loop bounded by 3600 iterations", "C15-r3-mut1": "ScheduleJob reads `started` before the queue lock (slow Push overlapping Start)",
+ "C15-r3-mut2": "interrupt branch no longer stops/drains the timer (stale tick ends the back-off)", "C15-r3-mut3": "error of the Size() asked after an empty Pop ignored (busy loop)",
  "C18-mut1": "lock released before Output", "C18-mut2": "message used as format string", "C18-mut3": "slog threshold cached at construction with an off-by-one probe",
 }
 rows = []
